@@ -106,6 +106,13 @@ def run(ctx, rng, runs):
             inner_kind = rng.choice(["disk", "disk", "memory"])
             d = os.path.join(tmp, f"r{r}"); os.makedirs(d, exist_ok=True)
             inner = cc.DiskCacher(d) if inner_kind == "disk" else cc.MemoryCacher()
+            removed = Counter(); rm_lock = threading.Lock(); inner_rmv = inner.rmv
+            def counting_rmv(key, inner=inner, inner_rmv=inner_rmv):
+                # (runs under the write lock of the key: an entry that was really there and is now gone may be fetched once more)
+                if key in inner:
+                    with rm_lock: removed[key] += 1
+                return inner_rmv(key)
+            inner.rmv = counting_rmv
             cacher = cc.ConcurrentCacher(inner)
             CobaContext.cacher = cacher
             sets = [make_dataset(rng, 40 + r * 3 + i) for i in range(rng.choice([1, 2]))]
@@ -161,15 +168,15 @@ def run(ctx, rng, runs):
                 if mode == "http-fault" and not isinstance(e, HttpBoom) and "unrecoverable" not in str(e): expected_err = isinstance(e, (EOFError, OSError, ValueError, KeyError))
                 if not expected_err:
                     viol.append((f"F/openml/{inner_kind}/{mode}/reader-raised:{type(e).__name__}", f"{type(e).__name__}: {str(e)[:200]}"))
-            # M2: requests per URL
-            n_faults = 1 if mode in ("http-fault", "file-cut") else 0
-            n_body = sum(1 for _, kw, e in errs if isinstance(e, BodyBoom))
+            # M2: requests per URL: one, plus one for every time the entry was removed, plus one for every fetch that failed (a failed
+            #     fetch leaves no entry) -- a cut cache file is removed by the cacher / the client and counted as a removal
             for url, n in web.requests.items():
                 ctx.count("openml.M2.requests")
-                # every failure (anywhere) may clear all four entries of the data set once; body failures that are plain exceptions do too
-                allowed = 1 + n_faults + n_body + sum(1 for _, _, e in errs if not isinstance(e, BodyBoom))
+                did = url.rsplit("/", 1)[1]
+                key = f"openml_{int(did) - 1000:0>6}_arff" if "/download/" in url else f"openml_{int(did):0>6}_{'feat' if '/features/' in url else 'data'}"
+                allowed = 1 + removed[key] + (1 if url == fault_url else 0) + (1 if mode == "file-cut" and key.endswith("_arff") else 0)
                 if n > allowed:
-                    viol.append((f"M2/openml/{inner_kind}/{mode}/url-requested-more-often-than-entries-were-cleared", f"{url} requested {n}x with {n_faults} injected faults, {len(errs)} failed reads"))
+                    viol.append((f"M2/openml/{inner_kind}/{mode}/url-requested-more-often-than-its-entry-was-removed", f"{url} requested {n}x, its entry {key} was removed {removed[key]}x, {len(errs)} failed reads"))
             # M4: quiescence
             ctx.count("openml.M4.quiescence")
             for b in _quiescent(cacher):
